@@ -11,7 +11,7 @@ CHECKS = {
          "cronexpr.Next is the trusted definition of a match; populations up to 200 JobConfigs.", "6/C01"),
  "C02": ("fault_enumeration", "online monitors on the commit log of a simulated API server driving the real cron controller end to end; every controller API call index x fault kind injected once, plus random fault/crash/lag patterns and injected duplicate requests",
          "detsim",
-         "The production CronWorker, cron Reconciler, ExecutionControl and the real webhooks run on a simulated API server; for scripted workloads every gated controller API call is failed before apply, conflicted, timed out after apply, or used as a crash point (before/after), plus random patterns and re-delivered schedule requests. At every Job create the monitor checks uniqueness per (owner UID, schedule time) among existing Jobs, name = <jobconfig>-<unix>, annotation = requested time, owner reference and UID label.",
+         "The production CronWorker, cron Reconciler, ExecutionControl and the real webhooks run on a simulated API server; for scripted workloads every gated controller API call is failed before apply, conflicted, timed out after apply, or used as a crash point (before/after), plus random patterns and re-delivered schedule requests. At every Job create the monitor checks uniqueness per (owner UID, schedule time) among existing Jobs, name = <jobconfig>-<unix>, annotation = requested time, owner reference and UID label (JobConfig templates carry hostile metadata incl. stale furiko-owned keys; concurrent reconciles are parked between building a Job and sending it). Plus a round-trip phase for the <ns>/<name>.<unix> work-item key over names with dots and digits, and an 8 s threaded run of the real controllers under the race detector.",
          "simultaneous existence is judged; re-creation after the Job was deleted is not a duplicate.", "6/C02"),
  "C03": ("exploration", "runtime reference-model monitor: JobConfig event histories written through the real webhooks, delivered with chosen lag to the production InformerWorker/update handler and CronWorker, requests compared with an epoch cursor model",
          "refmon",
@@ -19,11 +19,11 @@ CHECKS = {
          "times between a change and the first tick after its delivery are indeterminate by tick granularity.", "6/C03"),
  "C04": ("fault_enumeration", "runtime reference-model monitor over restart instants: persisted state produced by a real history, fresh production cron controller started at swept instants, requests compared with the reference lower bound; end-to-end crash/restart monitor in the simulation",
          "refmon",
-         "For seeded persisted states (lastScheduled / lastUpdated / notBefore in every order incl. equalities, downtime below/at/above the threshold, all threshold and cap settings) a fresh CronWorker is initialised and ticked, 1-3 restarts per case; the requests must be exactly the due times later than the reference bound, capped, then continue normally; nothing at or before lastScheduled; never-scheduled JobConfigs get nothing before the start.",
+         "For seeded persisted states (lastScheduled / lastUpdated / notBefore in every order incl. equalities, downtime below/at/above the threshold, all threshold and cap settings) a fresh CronWorker is initialised and ticked, 1-3 restarts per case; the requests must be exactly the due times later than the reference bound, capped, then continue normally; nothing at or before lastScheduled; never-scheduled JobConfigs get nothing before the start. An end-to-end phase crashes and restarts the whole controller set in the simulation (newest scheduled Job deleted, crashes at random API calls) and compares every schedule request of a restarted controller with the highest lastScheduled ever persisted.",
          "restart instants are sampled (sub-second offsets, exact threshold boundaries), not all instants.", "6/C04"),
  "C05": ("exploration", "online monitor on every start write against the true active set, counter-vs-truth at quiescent points, over seeded deterministic schedules of the real queue controller and active-job store with lag, concurrent reconciles, faults and crashes",
          "detsim",
-         "At every write that sets status.startTime of a Forbid/Enqueue Job the number of other started, unfinished Jobs of the JobConfig (API truth) must be below maxConcurrency; at every quiescent point and after every restart the in-memory counter must equal the true number of active Jobs.",
+         "At every write that sets status.startTime of a Forbid/Enqueue Job the number of other started, unfinished Jobs of the JobConfig (API truth) must be below maxConcurrency; at every quiescent point and after every restart the in-memory counter must equal the true number of active Jobs (the store's compare-and-add is a scheduling point in half of the cases). Plus a threaded run of the production controllers under the race detector with the same start oracle and counter = truth once quiet, and porcupine linearizability checks of recorded utils/atomic.Counter histories.",
          "timed-out-but-applied start writes are judged under C20 (known finding there).", "6/C05"),
  "C06": ("exploration", "online monitors (refusal, FIFO at start writes) and fixpoint oracle (nothing startable queued) over seeded deterministic schedules of the real queue controller",
          "detsim",
@@ -43,11 +43,11 @@ CHECKS = {
          "see known_findings.json: unrecorded-task classes.", "6/C09"),
  "C10": ("exploration", "online monitor at the write that sets the finished condition and fixpoint oracle, against ground-truth Pod outcomes recorded from kubelet events",
          "detsim",
-         "Succeeded only if the strategy is satisfied by Pods that really succeeded, Failed only if unsatisfiable in truth, finished (not being deleted) only with no live task; at the fixpoint decided Jobs have reached their result.",
+         "Succeeded only if the strategy is satisfied by Pods that really succeeded, Failed only if unsatisfiable in truth, finished (not being deleted) only with no live task; at the fixpoint decided Jobs have reached their result. Plus 20 000 generated TaskRef multisets through GetParallelTaskSummary / GetCondition / GetPhase against a direct restatement of the strategy rules.",
          "externally removed Pods are non-terminal ones (destroyed information is not demanded back).", "6/C10"),
  "C11": ("exploration", "pairwise monitor over every committed Job version (monotonicity, all writers) and coherence monitor on job-controller status writes",
          "detsim",
-         "startTime never changes, finished never reverts, result/finish time stable unless user edit or deletion, createdTasks and task names never shrink, task timestamps never cleared; controller-written versions have exactly one condition, matching state, terminal phase iff finished, counters equal to the list.",
+         "startTime never changes, finished never reverts, result/finish time stable unless user edit or deletion, createdTasks and task names never shrink, task timestamps never cleared; controller-written versions have exactly one condition, matching state, terminal phase iff finished, counters equal to the list. Plus a threaded run under the race detector with the monotonicity and coherence oracles.",
          "", "6/C11"),
  "C12": ("exploration", "online monitor justifying every controller-issued Pod delete (pending timeout / kill / strategy decided / Job deleted / force-delete timeout) on the reconcile's view and the virtual clock; fixpoint oracle after all deadlines",
          "detsim",
@@ -83,7 +83,7 @@ CHECKS = {
          "the harness reads after every update, so 'last good' is well defined; fake clientset watch stands in for the API server.", "6/C19"),
  "C20": ("fault_enumeration", "every controller API call index of confluent cron+ad-hoc workloads x {500 before, 409 before, timeout after apply} plus random finite fault patterns; all safety monitors adopted, fixpoint convergence, reference schedule stream, fault-free twin-run outcome comparison",
          "detsim",
-         "With all four controllers and the cron controller on the simulated API: during the run every safety monitor (C02, C05-C13) must stay silent, after faults stop a fixpoint is reached within the step budget with bounded requeues, every due schedule time inside the determinate window has its Job, and the set of Jobs and their results equal those of the fault-free run with the same seed.",
+         "With all four controllers and the cron controller on the simulated API: during the run every safety monitor (C02, C05-C13) must stay silent, after faults stop a fixpoint is reached within the step budget with bounded requeues, every due schedule time inside the determinate window has its Job, and the set of Jobs and their results equal those of the fault-free run with the same seed. Random patterns include failed live GETs and minutes-long outages of one kind of call; a threaded run with injected before-apply faults runs under the race detector.",
          "twin equality on Job set and results (task-level kill-vs-finish races excluded); known findings listed in known_findings.json.", "6/C20"),
 }
 
